@@ -56,7 +56,7 @@ class Timers:
         return False, pushed
 
 
-def session(rng, cid, force_close=None, h_choices=(400,), steps=(4, 9)):
+def session(rng, cid, force_close=None, h_choices=(400,), steps=(4, 9), stall_bias=False):
     """One timed session.  `force_close`: None | 'client' | 'server' (a close happens early, the
     timers keep firing afterwards)."""
     g = Gen(rng, chmax=2, bound=4, via_stream=0.0)
@@ -107,7 +107,22 @@ def session(rng, cid, force_close=None, h_choices=(400,), steps=(4, 9)):
             closed_at = now
             g.op("dump")
             continue
+        if stall_bias and not sealed:
+            # keep data queued across timer events: submit, stall, let the timers fire, flush late
+            if out_len == 0 and r < 0.45:
+                r = 0.70          # submit
+            elif out_len > 0 and r < 0.5:
+                r = 0.0           # timer event with data queued
+            elif out_len > 0 and r < 0.65:
+                r = 0.99          # would-block
+                g.op("wscript wb"); g.op("write")
+                continue
         if r < 0.40:
+            if stall_bias and tm and partial is None:
+                # the server keeps talking: these sessions are about the tx side
+                g.use(mg.heartbeat())
+                g.op("feed c:%s" % mg.heartbeat().bytes.hex()); g.op("ev stream r")
+                tm.rx["last"] = now
             g.op("hbev")
             if tm:
                 missed, pushed = tm.event(now, out_len == 0)
@@ -170,6 +185,41 @@ def session(rng, cid, force_close=None, h_choices=(400,), steps=(4, 9)):
     c.meta["h"] = h
     c.meta["nominal_ms"] = now
     return c
+
+
+def tx_with_data_queued_cases(rng):
+    """Directed: the tx timer pops while data is queued (a stalled write, or a submission picked up
+    just before the HEARTBEAT event) - no heartbeat is due then, but the timer must keep running:
+    one interval after the late flush, idle again, a heartbeat frame is queued."""
+    cases = []
+    for k, (h, variant) in enumerate([(400, "stall"), (400, "same-batch"), (300, "stall"), (300, "same-batch")]):
+        g = Gen(rng, chmax=2, bound=4, via_stream=0.0)
+        h1 = g.open_channel(1); g.bind_opened(h1, 1)
+        g.op("wscript w:1000000"); g.op("write")
+        g.op("hb-start %d" % h)
+        hb = mg.heartbeat()
+        g.use(hb)
+        d1 = h + 200
+        if variant == "stall":
+            g.op("send %s send %s" % (h1, hx(amqp.body(1, b"x")))); g.op("ev 1")
+            g.op("wscript wb"); g.op("write")
+            g.op("sleep %d" % d1)
+        else:
+            g.op("sleep %d" % d1)
+            g.op("send %s send %s" % (h1, hx(amqp.body(1, b"x")))); g.op("ev 1")
+        g.op("feed c:%s" % hb.bytes.hex()); g.op("ev stream r")
+        g.op("hbev"); g.op("dump")
+        g.op("wscript w:1000000"); g.op("write"); g.op("dump")
+        # idle from now on; the server keeps talking
+        for _ in range(2):
+            g.op("sleep %d" % (h + 200))
+            g.op("feed c:%s" % hb.bytes.hex()); g.op("ev stream r")
+            g.op("hbev"); g.op("dump")
+            g.op("wscript w:1000000"); g.op("write"); g.op("dump")
+        c = g.case("txq%d" % k)
+        c.meta["h"] = h
+        cases.append(c)
+    return cases
 
 
 def canon(il, ml):
